@@ -279,6 +279,8 @@ func itemsFromFor(
 	var values []any  // The list of values to loop over
 	// Get the list from a matrix
 	if f.Matrix.Len() != 0 {
+		// Work on a copy: the definition is shared by every compilation of the task
+		f = f.DeepCopy()
 		if err := resolveMatrixRefs(f.Matrix, cache); err != nil {
 			return nil, nil, errors.TaskfileInvalidError{
 				URI: location.Taskfile,
